@@ -149,13 +149,10 @@ func nonNilIsAny(err error, matches []error) bool {
 			}
 
 		case interface{ Unwrap() []error }:
-			wrapped := u.Unwrap()
-			if more == nil {
-				// ensure append (up next) copies, just in case
-				more = wrapped[:len(wrapped):len(wrapped)]
-			} else {
-				more = append(more, wrapped...)
-			}
+			// The append must copy. A reslice of the errors from
+			// Unwrap gets overwritten once the stack shrinks and
+			// grows again.
+			more = append(more, u.Unwrap()...)
 		}
 
 		if len(more) == 0 {
